@@ -84,6 +84,107 @@ let run_g () =
         (List.map (fun p -> show_res ints (execute fuel g root p)) xpaths));
   print_endline (Buffer.contents b)
 
+(* ---- strings: token S97-98-99 (code points), S alone = empty ---- *)
+let str_of_tok t =
+  if String.length t <= 1 then [] else
+  List.map (fun x -> nat_of_int (int_of_string x))
+    (String.split_on_char '-' (String.sub t 1 (String.length t - 1)))
+let tok_of_str s = "S" ^ String.concat "-" (List.map (fun n -> string_of_int (int_of_nat n)) s)
+let next_tok () = let t = !toks.(!pos) in incr pos; t
+let next_str () = str_of_tok (next_tok ())
+
+(* stream F: format_parameter_value *)
+let read_elem () =
+  match next_tok () with
+  | "e" -> EStr (next_str ())
+  | _ -> ENum (next_str ())
+let read_value () =
+  match next_tok () with
+  | "s" -> VStr (next_str ())
+  | "b" -> VBool (next () <> 0)
+  | "n" -> VNum (next_str ())
+  | "l" -> let k = next () in VList (List.init k (fun _ -> read_elem ()))
+  | "d" -> let k = next () in VDict (List.init k (fun _ -> let key = next_str () in (key, read_elem ())))
+  | _ -> VOther
+let show_oval = function
+  | OStr s -> "s" ^ tok_of_str s
+  | ORaw (EStr s) -> "s" ^ tok_of_str s
+  | ORaw (ENum r) -> "n" ^ tok_of_str r
+let show_decoded = function
+  | None -> "none"
+  | Some (DPrim s) -> "P:" ^ tok_of_str s
+  | Some (DArr l) -> "A:" ^ String.concat "," (List.map tok_of_str l)
+  | Some (DObj d) -> "O:" ^ String.concat "," (List.map (fun (k, v) -> tok_of_str k ^ "=" ^ tok_of_str v) d)
+let run_f () =
+  let name = next_str () in
+  let st = if next () = 0 then Simple else Form in
+  let explode = next () <> 0 in
+  let v = read_value () in
+  let r = format_parameter_value name st explode v in
+  let dec = match r with Ok out -> show_decoded (decode st explode name (shape_of v) out) | _ -> "none" in
+  print_endline ("out=" ^ show_res (fun out -> String.concat ";"
+      (List.map (fun (k, o) -> tok_of_str k ^ "~" ^ show_oval o) out)) r
+    ^ "|dec=" ^ dec ^ "|strs=" ^ show_decoded (strs v))
+
+(* stream O: SampleCache histories *)
+let ecls_of_code = function
+  | 0 -> EResolveReference | 1 -> EInternal | 2 -> ENormalization | 3 -> EJsonPointer
+  | 4 -> EJsonSchema | 5 -> ERegex | 6 -> EGrammar | 7 -> EXmlSchema | 8 -> EOpenApi | 9 -> EConfig
+  | 10 -> EIndexError | 11 -> EKeyError | 12 -> EAttributeError | 13 -> EAssertionError
+  | 14 -> ETypeError | 15 -> EValueError | 16 -> ENotImplemented | _ -> EOtherPy
+let pos_of = function 0 -> PQuery | 1 -> PHeader | 2 -> PPath | _ -> PCookie
+let pos_name = function PQuery -> "query" | PHeader -> "header" | PPath -> "path" | PCookie -> "cookie"
+let show_param p = Printf.sprintf "%d.%s" (int_of_nat p.p_name) (pos_name p.p_pos)
+let run_o () =
+  let v = (next () <> 0) in
+  let ncomp = next () in
+  let tbl = Hashtbl.create 16 in
+  for _ = 1 to ncomp do
+    let k = next () in let b = next () in let kind = next () in let a = next () in
+    let r = match kind with
+      | 0 -> let vs = next_list () in let is = next_list () in Ok (vs, is)
+      | 1 -> LibErr (ecls_of_code a)
+      | _ -> PyErr (ecls_of_code a) in
+    Hashtbl.replace tbl (k, b) r
+  done;
+  let compute k b =
+    match Hashtbl.find_opt tbl (int_of_nat k, if b then 1 else 0) with
+    | Some r -> r | None -> PyErr EOtherPy in
+  let nops = next () in
+  let ops = Array.init nops (fun _ ->
+    let id = next_nat () in
+    let np = next () in
+    let ps = List.init np (fun _ ->
+      let name = next_nat () in let pos = pos_of (next ()) in let req = next () <> 0 in
+      let sch = next_nat () in { p_name = name; p_pos = pos; p_required = req; p_schema = sch }) in
+    let body = if next () <> 0 then (let k = next_nat () in let r = next () <> 0 in Some (k, r)) else None in
+    { o_id = id; o_params = ps; o_body = body }) in
+  let ncalls = next () in
+  let c = ref empty_cache in
+  let outs = ref [] in
+  for _ = 1 to ncalls do
+    let kind = next () in
+    let op = ops.(next ()) in
+    let n = next () in
+    if kind = 0 then begin
+      let ov = List.init n (fun _ -> let name = next_nat () in (name, next_list ())) in
+      let (c', r) = generate_all v compute !c op ov in
+      c := c';
+      outs := show_res (fun pl -> String.concat ";" (List.map (fun g ->
+          (match g.g_param with Some p -> show_param p | None -> "body")
+          ^ "/o" ^ (match g.g_omit with None -> "-" | Some true -> "1" | Some false -> "0")
+          ^ "/v" ^ ints g.g_valid ^ "/i" ^ ints g.g_invalid) pl)) r :: !outs
+    end else begin
+      let ow = List.init n (fun _ -> let name = next_nat () in (name, next_nat ())) in
+      let (c', r) = generate_one_valid compute !c op ow in
+      c := c';
+      outs := show_res (fun (l, b) -> String.concat ";" (List.map (fun (p, s) ->
+          show_param p ^ "=" ^ string_of_int (int_of_nat s)) l)
+          ^ "/b" ^ (match b with None -> "-" | Some s -> string_of_int (int_of_nat s))) r :: !outs
+    end
+  done;
+  print_endline (String.concat " # " (List.rev !outs))
+
 let () =
   try
     while true do
@@ -94,6 +195,8 @@ let () =
         (try
            match ts.(0) with
            | "G" -> run_g ()
+           | "F" -> run_f ()
+           | "O" -> run_o ()
            | t -> print_endline ("error=unknown-stream:" ^ t)
          with Stack_overflow -> print_endline "error=stack-overflow"
             | Failure m -> print_endline ("error=failure:" ^ m)
